@@ -150,8 +150,8 @@ def variant(rng, np, c):
         names = ["pressure", "loading"] + list(c["extra"])
         v["columns"] = {k: rng.choice(_reprs(np, c[k] if k in c else c["extra"][k])) for k in names}
         br = c["branch"]
-        # TODO(candidate defect D1, reported): booleans (the documented type of `branch`) give another identifier than 0/1 -> no bool marks here
-        hows = ["list", "np.int8", "np.int64", "np.uint8", "np.int32", "list-float", "np.float64"]
+        # booleans are the documented type of `branch` (they used to give another identifier than 0/1: finding S44, repaired in the repository)
+        hows = ["list", "np.int8", "np.int64", "np.uint8", "np.int32", "list-float", "np.float64", "list-bool", "np.bool_"]
         if len(set(br)) == 1:
             hows += ["keyword", "keyword"]
         v["branch"] = rng.choice(hows)
@@ -198,6 +198,8 @@ def build_variant(pg, c, v):
         branch = [int(b) for b in br]
     elif v["branch"] == "list-float":
         branch = [float(b) for b in br]
+    elif v["branch"] == "list-bool":
+        branch = [bool(b) for b in br]
     else:
         branch = np.array(br, dtype=v["branch"][3:])
     col = lambda k: _column(np, pd, v["columns"][k], c[k] if k in c else c["extra"][k])          # noqa
